@@ -387,7 +387,7 @@ def features(case: Dict[str, Any]) -> Dict[str, int]:
         f["identical"] += sum(1 for v in spans.values() if v > 1)
         f["touching"] += sum(1 for (k, t) in ends if (k, t) in starts)
         f["missing_partner"] += len(set(corr_h) ^ set(corr_d))
-        devs = sorted((e["ts"], e["ts"] + e["dur"], (e.get("args") or {}).get("stream")) for e in xs
+        devs = sorted((e["ts"], e["ts"] + e["dur"], str((e.get("args") or {}).get("stream"))) for e in xs
                       if "stream" in (e.get("args") or {}))
         for i in range(len(devs) - 1):
             if devs[i + 1][0] < devs[i][1] and devs[i + 1][2] != devs[i][2]:
